@@ -358,21 +358,41 @@ def rule_loc(ctx):
     else:
         ctx.holds('R2', "loc default mode='raise'")
 
-    def tolterm_none(st_or_path):
-        return None
+    # The effective tolerance is the caller's when one is given - 0 included - and the axis' own (`Axis(..., tol=)`) otherwise.  Scenario table over
+    # (index kind) x (caller's tol: none / 0.5 / 0) x (axis tol: none / 0.6): every test on either of them is evaluated for the scenario, and the
+    # tolerance handed to locate_one must evaluate to the effective one (`tol or self._tol` loses an explicit 0).
+    from ..rules import val_eval, UNKNOWN
+    AXTOL = [('attr', SELF, '_tol'), ('attr', SELF, 'tol')]
+    scenarios = []
+    for kind0 in ('slice', 'scalar', 'bool', 'list'):
+        for ct in (None, 0.5, 0):
+            for at in (None, 0.6):
+                scenarios.append((kind0, ct, at))
+    for k, ct, at in scenarios:
+        effective = ct if ct is not None else at
+        kind = 'list+tol' if (k == 'list' and effective is not None) else k
+        env = {TOL: ct}
+        for t_ in AXTOL:
+            env[t_] = at
+        inst = '%s, tol=%r, axis tol=%r' % (k, ct, at)
 
-    for kind in ('slice', 'scalar', 'bool', 'list', 'list+tol'):
-        k = kind.split('+')[0]
-        # the effective tolerance is `tol or self._tol`
-        def oracle(atom, st, _o=loc_oracle(k, VAL), _k=kind):
+        def oracle(atom, st, _o=loc_oracle(k, VAL), _env=env):
             r = _o(atom, st)
             if r is not None:
                 return r
-            if atom[0] == 'cmp' and atom[1] == 'is' and atom[3] == T.CONST_NONE and T.contains(atom[2], TOL):
-                return _k != 'list+tol'
+            if T.contains(atom, TOL) or any(T.contains(atom, t_) for t_ in AXTOL):
+                v_ = val_eval(atom, _env)
+                if v_ is not UNKNOWN:
+                    return bool(v_)
             if atom[0] == 'call' and T.call_name(atom) == 'is_numeric':
                 return True
             return None
+
+        def tol_ok(c, _env=env, _eff=effective):
+            # the tol= argument of a locate_one call evaluates to the effective tolerance of the scenario
+            t_ = T.kw(c, 'tol', T.CONST_NONE)
+            v_ = val_eval(t_, _env)
+            return v_ is not UNKNOWN and v_ == _eff and type(v_) is type(_eff)
         ev = run(ctx, fi, bind={'mode': const('raise'), 'issorted': const(False)}, oracle=oracle)
         rets = ret_paths(ev)
         if not rets:
@@ -385,11 +405,13 @@ def rule_loc(ctx):
                 ok = v[0] == 'call' and T.dotted(v[1]) == 'slice'
                 why = 'a slice must be answered by a slice of positions'
             elif k == 'scalar':
-                ok = v[0] == 'call' and T.call_name(v) == 'locate_one' and is_values(v[2][0]) and v[2][1] == VAL \
-                    and T.kw(v, 'tol') is not None and T.contains(T.kw(v, 'tol'), TOL) or \
-                    (v[0] == 'call' and T.call_name(v) == 'locate_one' and is_values(v[2][0]) and v[2][1] == VAL
-                     and T.kw(v, 'tol') == T.CONST_NONE)
+                ok = v[0] == 'call' and T.call_name(v) == 'locate_one' and is_values(v[2][0]) and v[2][1] == VAL
                 why = 'a scalar label must be located by locate_one(values, val, tol=tol)'
+                if ok and not tol_ok(v):
+                    ok = False
+                    why = ('with the caller\'s tol=%r and an axis-level tolerance of %r the label is searched with tol=%s, expected %r: the caller\'s tolerance - 0 included - '
+                           'takes precedence, the axis\' own one applies only when none is given (`tol or self._tol` drops an explicit 0, and a label that is not within the '
+                           'given tolerance is returned)' % (ct, at, T.show(T.kw(v, 'tol', T.CONST_NONE))[:60], effective))
             elif k == 'bool':
                 ok = v == VAL
                 why = 'a boolean mask must be passed through unchanged'
@@ -397,9 +419,12 @@ def rule_loc(ctx):
                 if v[0] == 'call' and T.dotted(v[1]) in ('np.array', 'np.asarray') and v[2] and v[2][0][0] == 'comp':
                     v = v[2][0]            # positions collected into an (integer) array: the dtype is decided by R12
                 ok = v[0] == 'comp' and v[2][0] == 'call' and T.call_name(v[2]) == 'locate_one' and is_values(v[2][2][0]) \
-                    and v[2][2][1][0] == 'elem' and v[2][2][1][1] == VAL and T.kw(v[2], 'tol') is not None \
-                    and T.contains(T.kw(v[2], 'tol'), TOL) and v[3][0][1] == VAL
+                    and v[2][2][1][0] == 'elem' and v[2][2][1][1] == VAL and v[3][0][1] == VAL
                 why = 'a list of labels with a tolerance must be located label by label with locate_one(values, v, tol=tol)'
+                if ok and not tol_ok(v[2]):
+                    ok = False
+                    why = ('with the caller\'s tol=%r and an axis-level tolerance of %r the labels are searched with tol=%s, expected %r (the caller\'s tolerance, 0 included, '
+                           'takes precedence over the axis\' own)' % (ct, at, T.show(T.kw(v[2], 'tol', T.CONST_NONE))[:60], effective))
             elif kind == 'list':
                 ok = v[0] == 'call' and T.call_name(v) == 'locate_many' and is_values(v[2][0]) and v[2][1] == VAL
                 why = 'a list of labels must be located by locate_many(values, val)'
@@ -419,10 +444,10 @@ def rule_loc(ctx):
                     else:
                         ctx.holds('R2', 'loc list branch: return guarded by values[matches] == val')
             if not ok:
-                ctx.violated('R3', fi, 'return %s [%s]' % (T.show(v), kind), why, node=p.node)
+                ctx.violated('R3', fi, 'return %s [%s]' % (T.show(v), inst), why, node=p.node)
             else:
-                ctx.holds('R3', 'loc dispatch: ' + kind, sample=T.show(v)[:200])
-        if kind == 'list':
+                ctx.holds('R3', 'loc dispatch: ' + inst, sample=T.show(v)[:200])
+        if kind == 'list' and ct is None and at is None:
             bad = [p for p in raise_paths(ev) if exc_name(p.value) != 'IndexError']
             good = [p for p in raise_paths(ev) if exc_name(p.value) == 'IndexError']
             if bad or not good:
@@ -443,9 +468,20 @@ def rule_loc(ctx):
                              'makes np.searchsorted raise TypeError, which escapes: an absent label must raise IndexError, as the scalar spelling d[1] does',
                              node=lm[0].node if lm else fi.node)
     # the only way round the guard is mode == 'clip'
-    ev = run(ctx, fi, bind={'issorted': const(False)}, oracle=lambda a, st: (
-        loc_oracle('list', VAL)(a, st) if loc_oracle('list', VAL)(a, st) is not None else
-        (True if (a[0] == 'cmp' and a[1] == 'is' and a[3] == T.CONST_NONE and T.contains(a[2], TOL)) else None)))
+    env_none = {TOL: None}
+    for t_ in AXTOL:
+        env_none[t_] = None
+
+    def oracle_clip(a, st):
+        r = loc_oracle('list', VAL)(a, st)
+        if r is not None:
+            return r
+        if T.contains(a, TOL) or any(T.contains(a, t_) for t_ in AXTOL):
+            v_ = val_eval(a, env_none)
+            if v_ is not UNKNOWN:
+                return bool(v_)
+        return None
+    ev = run(ctx, fi, bind={'issorted': const(False)}, oracle=oracle_clip)
     for p in ret_paths(ev):
         unguarded = not any(any(x[0] == 'cmp' and x[1] == '!=' for x in T.subterms(a)) for a, _ in p.guards)
         if unguarded:
